@@ -42,6 +42,14 @@ def accepted_at_equality(cond, pol, fft_shape_atoms):
     return not raises
 
 
+def _same_pair(v, base):
+    """v is `base`, tuple(base) or (base[0], base[1])"""
+    v = nf.strip_apps(v, ('copy', 'cast', 'tuple', 'list'))
+    if v == base:
+        return True
+    return isinstance(v, Tup) and len(v) == 2 and v.items[0] == nf.index(base, C(0)) and v.items[1] == nf.index(base, C(1))
+
+
 def view_chain(v, loops):
     """(root atom, [index keys from the root outwards]) of a value that denotes an array or a basic-index
     view of it; stores into it (setitem / loop-carried versions) are the same buffer."""
@@ -119,18 +127,36 @@ def run(chk, repo, tier):
            det or 'NotImplementedError is raised before any other step when _has_tilt(wavefront)', f.loc())
     fh, hp, _ = analyse(repo, 'propagate._has_tilt', types={('sym', 'wavefront'): repo.cls('wavefront.Wavefront')})
     rets = returns(hp)
-    t_in = [p for p in rets if p.ret == TRUE]
-    t_out = [p for p in rets if p.ret == FALSE]
-    ok = len(t_out) == 1 and not t_out[0].conds and len(t_in) >= 1
-    for p in t_in:
-        good = len(p.conds) == 1 and p.conds[0][1] is True
-        c = p.conds[0][0].single_atom() if p.conds and isinstance(p.conds[0][0], Poly) else None
-        good = good and c is not None and c[0] == 'attr' and c[2] == 'tilt' and c[1][0] == 'idx' and \
-            c[1][1] == nf.attr(WF, 'data').single_atom()
-        ok = ok and good
-    lps = [lp for p in rets for lp in p.state.loops]
-    ok = ok and any(lp['iter'] == nf.attr(WF, 'data') for lp in lps) if lps else False
-    chk.ob('C09-a', 'D-dominance', fh.key, 'every field of the wavefront is inspected for tilt', ok, '', fh.loc())
+    data = nf.attr(WF, 'data')
+    whole = None
+    if len(rets) == 1 and isinstance(rets[0].ret, Poly) and rets[0].ret.single_atom() is not None \
+            and is_app(rets[0].ret.single_atom(), 'any'):
+        # any(<tilt of f> for f in wavefront.data)
+        inner = rets[0].ret.single_atom()[2][0]
+        ia = inner.single_atom() if isinstance(inner, Poly) else None
+        if ia is not None and is_app(ia, ('listcomp', 'genexp')) and len(ia[2]) == 2:
+            body, seq = ia[2]
+            ba = body.single_atom() if isinstance(body, Poly) else None
+            whole = seq == data and ba is not None and ba[0] == 'attr' and ba[2] == 'tilt' and ba[1][0] == 'idx' \
+                and ba[1][1] == data.single_atom() and not rets[0].conds
+    if whole is not None:
+        ok = whole
+    else:
+        t_in = [p for p in rets if p.ret == TRUE]
+        t_out = [p for p in rets if p.ret == FALSE]
+        ok = len(t_out) == 1 and not t_out[0].conds and len(t_in) >= 1
+        for p in t_in:
+            good = len(p.conds) == 1 and p.conds[0][1] is True
+            c = p.conds[0][0].single_atom() if p.conds and isinstance(p.conds[0][0], Poly) else None
+            good = good and c is not None and c[0] == 'attr' and c[2] == 'tilt' and c[1][0] == 'idx' and \
+                c[1][1] == data.single_atom()
+            ok = ok and good
+        lps = [lp for p in rets for lp in p.state.loops]
+        ok = ok and any(lp['iter'] == data for lp in lps) if lps else False
+        if not lps and not t_in:
+            ok = None        # neither a loop over the fields nor any(...) over them
+    chk.ob('C09-a', 'D-dominance', fh.key, 'every field of the wavefront is inspected for tilt', ok,
+           '' if ok is not None else f'undecided: result {fmt(rets[0].ret)[:120] if rets else "?"}', fh.loc())
 
     # ---------------------------------------------------------------- C09-b / c
     fs_call = None
@@ -171,7 +197,7 @@ def run(chk, repo, tier):
     oks = False
     for p in returns(sp):
         e = p.calls('propagate._fft_shape')
-        oks = len(e) == 1 and p.ret == nf.index(e[0].result, C(0)) and e[0].bound.get('z') == S('z') \
+        oks = len(e) == 1 and _same_pair(p.ret, nf.index(e[0].result, C(0))) and e[0].bound.get('z') == S('z') \
             and e[0].bound.get('oversample') == S('oversample')
         wl = e[0].bound.get('wavelength') if e else None
         oks = oks and wl is not None and ('sym', 'wavelength') in nf.value_atoms(wl)
@@ -307,22 +333,27 @@ def run(chk, repo, tier):
     a = r.single_atom() if isinstance(r, Poly) else None
     nest = None
     norm = None
+    ffts = [x for x in nf.value_atoms(r) if is_app(x, 'fft.fft2')]
+    if len(ffts) != 1:
+        raise AnalysisError(f'_fft2: expected exactly one fft2 in the result, found {len(ffts)}')
+    for extra in ffts[0][2][1:]:
+        if isinstance(extra, Tup):
+            for pr in extra.items:
+                if isinstance(pr, Tup) and pr.items[0] == Const('norm'):
+                    norm = pr.items[1]
     if a is not None and is_app(a, ('fft.fftshift', 'fft.ifftshift')):
         outer = a[1]
         mid = a[2][0].single_atom() if isinstance(a[2][0], Poly) else None
         if mid is not None and is_app(mid, 'fft.fft2'):
             inner = mid[2][0].single_atom() if isinstance(mid[2][0], Poly) else None
-            for extra in mid[2][1:]:
-                if isinstance(extra, Tup):
-                    for pr in extra.items:
-                        if isinstance(pr, Tup) and pr.items[0] == Const('norm'):
-                            norm = pr.items[1]
-            if inner is not None and is_app(inner, ('fft.fftshift', 'fft.ifftshift')) and inner[2][0] == S('x'):
+            if inner is not None and is_app(inner, ('fft.fftshift', 'fft.ifftshift')) and nf.strip_apps(inner[2][0]) == S('x'):
                 nest = (outer, inner[1])
     if nest is None:
-        raise AnalysisError(f'_fft2: centred FFT form not recognised: {fmt(r)}')
-    chk.ob('C09-h', 'N-nesting', f2.key, 'origin floor(n/2): un-centre with ifftshift, re-centre with fftshift',
-           nest == ('fft.fftshift', 'fft.ifftshift'),
-           f'{nest[0][4:]}(fft2({nest[1][4:]}(x))): ifftshift rolls by -(n//2) and sends index floor(n/2) to 0, fftshift rolls '
-           f'by +n//2; the two nestings agree only for even n (reference: tests/test_fourier.py)', f2.loc())
+        chk.undecided('C09-h', 'N-nesting', f2.key, 'origin floor(n/2): un-centre with ifftshift, re-centre with fftshift',
+                      f'the centring is not written with fftshift/ifftshift: {fmt(r)[:160]}', f2.loc())
+    else:
+        chk.ob('C09-h', 'N-nesting', f2.key, 'origin floor(n/2): un-centre with ifftshift, re-centre with fftshift',
+               nest == ('fft.fftshift', 'fft.ifftshift'),
+               f'{nest[0][4:]}(fft2({nest[1][4:]}(x))): ifftshift rolls by -(n//2) and sends index floor(n/2) to 0, fftshift rolls '
+               f'by +n//2; the two nestings agree only for even n (reference: tests/test_fourier.py)', f2.loc())
     chk.ob('C09-h', 'T-keyword', f2.key, "norm='ortho'", norm == Const('ortho'), f'norm={norm!r}', f2.loc())
